@@ -368,11 +368,21 @@ pub fn run(ctx: &Ctx, _args: &Args) -> i32 {
     let stress_worlds: usize = ctx.tier.pick(16, 128);
     let cat = c08::catalogue();
 
+    let fixtures = crate::fixtures::load();
+    let fixture_requests: Vec<ReqSpec> = fixtures.iter().flat_map(|f| f.requests.iter().cloned()).collect();
+
     let mut report = run_sharded(jobs, |shard, report| {
         let mut rng = Rng::stream(ctx.seed, shard as u64);
-        // (1) twin routers over update histories with extra cache calls
+        // (1) twin routers over update histories with extra cache calls (a quarter of them over the rule sets
+        // of the repository's fixtures)
         for _ in 0..(n_routers / jobs as u64) {
-            let mut case = c02::random_case(&mut rng, 25);
+            let mut case = if !fixtures.is_empty() && rng.chance(1, 4) {
+                let k = rng.below(fixtures.len());
+                report.count("fixture_histories");
+                c02::fixture_case(&mut rng, 25, &fixtures[k], &fixture_requests)
+            } else {
+                c02::random_case(&mut rng, 25)
+            };
             // sprinkle more cache calls with all kinds of limits
             let extra = rng.range(1, 5);
             for _ in 0..extra {
